@@ -8,7 +8,9 @@ the calls a fake Transport receives.  No private attribute of the library is rea
 from __future__ import annotations
 
 import asyncio
+import os
 import re
+import shutil
 import time
 
 from aiomysensors import Gateway
@@ -209,11 +211,11 @@ def fault_selector(ev: dict):
 class StreamEnd:
     """The peer side of a real TCPTransport: a hand-fed StreamReader and a recording writer."""
 
-    def __init__(self, loop) -> None:
+    def __init__(self, loop, limit: int = 2 ** 16) -> None:
         from aiomysensors.transport.tcp import TCPTransport
 
         self.transport = TCPTransport("host.invalid")
-        self.reader = asyncio.StreamReader(limit=2 ** 16, loop=loop)
+        self.reader = asyncio.StreamReader(limit=limit, loop=loop)
         self.out = bytearray()
         end = self
 
@@ -258,7 +260,7 @@ class Run:
         self.loop = asyncio.new_event_loop()
         self.stream = None
         if init.get("stream"):
-            self.stream = StreamEnd(self.loop)
+            self.stream = StreamEnd(self.loop, init.get("stream_limit", 2 ** 16))
             self.transport = self.stream.transport
         else:
             self.transport = FakeTransport()
@@ -283,6 +285,8 @@ class Run:
                 self.loop.run_until_complete(asyncio.gather(*pending, return_exceptions=True))
         finally:
             self.loop.close()
+            if hasattr(self, "snap_dir"):
+                shutil.rmtree(self.snap_dir, ignore_errors=True)
 
     # -- one step ------------------------------------------------------------------
     def _await(self, coro):
@@ -320,7 +324,7 @@ class Run:
             tr.fail_if = fault_selector(ev)
         t0 = time.time()
         kind = ev["k"]
-        if kind in ("recv", "recvbad", "recvundec") and self.stream is not None:
+        if kind in ("recv", "recvbad", "recvundec", "recvlong") and self.stream is not None:
             # the line travels as bytes through the real stream transport
             raw = bytes(ev["raw"]) if "raw" in ev else (ev["line"] if kind == "recvbad" else line_of(ev)).encode("utf-8")
             self.stream.reader.feed_data(raw)
@@ -348,6 +352,18 @@ class Run:
             out = self._outcome(val, err, yielded=False)
         elif kind == "sendjunk":
             val, err = self._await(gw.send(ev["obj"]))
+            out = self._outcome(val, err, yielded=False)
+        elif kind in ("snapshot", "reload"):
+            from aiomysensors.persistence import Persistence
+            import tempfile
+            if not hasattr(self, "snap_path"):
+                self.snap_dir = tempfile.mkdtemp(prefix="verif-snap-")
+                self.snap_path = os.path.join(self.snap_dir, "snap.json")
+            pers = Persistence(gw.nodes, self.snap_path)
+            if kind == "snapshot" or not os.path.exists(self.snap_path):
+                val, err = self._await(pers.save())
+            else:
+                val, err = self._await(pers.load())
             out = self._outcome(val, err, yielded=False)
         elif kind == "cycle":
             async def cycle():
